@@ -1,8 +1,129 @@
+import PyGam.Model.Loop
 import PyGam.Drv.Common
-namespace PyGam.Drv.C20
-open PyGam PyGam.Drv
+/-!
+# C20 driver: runs `PyGam.Loop.fit` (the definition the theorems of `Props/C20.lean` are about)
 
-/-- operations of the C20 model driver (`C20 <op> <args…>`); `none` ↦ `bad-op` -/
+The abstract parts are instantiated so that the recorded run of the implementation can be
+replayed: coefficients `C := Nat` (index on the trajectory, `step = (· + 1)`, `init = 0`), diffs
+`D := Float` (the recorded IEEE doubles, `+inf` beyond the recording), entries `V := String`
+(symbolic: which observable of which trajectory point was logged).
+
+```
+fit <cls> <maxIter:int> <tol:bits> <hasC:0|1> <cbs> <old> <diff bits …>
+    cbs : `-` (argument not given: class default) | `=item,item,…` (`=` alone: empty list)
+    item: deviance | diffs | accuracy | coef | u/<name>/<start>/<end>
+          start/end: `-` no such hook | `.` hook without arguments | names joined by `+`
+    old : `-` | key*count,key*count      (entries already in logs_ before this fit)
+  → ValueError | AssertionError | short | ok iters=k coef=k printed=b stats=b logs key=e|e|… key=…
+    entries: old<i>  dev@k  acc@k  coef@k  diff:<bits>  us:<name>@k  ue:<name>@k>k':<bits>
+ctor <cls> <arg>            → <accepts 0|1> <forwards 0|1>
+defaults <cls>              → names
+effective <cls> <cbs>       → names of the callbacks the optimiser will see
+bind <start|end> <hasC> <names …> → ok | missing <names …>
+```
+-/
+namespace PyGam.Drv.C20
+open PyGam PyGam.Drv PyGam.Loop
+
+abbrev CB := Callback Nat Float String
+
+def obs : Obs Nat Float String :=
+  { dev := fun c => "dev@" ++ toString c
+    acc := fun c => "acc@" ++ toString c
+    coefV := fun c => "coef@" ++ toString c
+    diffV := fun d => "diff:" ++ showFloat d }
+
+def parseNames? (s : String) : Option (Option (List String)) :=
+  if s == "-" then some none
+  else if s == "." then some (some [])
+  else
+    let parts := s.splitOn "+"
+    if parts.any (· == "") then none else some (some parts)
+
+def parseItem? (s : String) : Option CB :=
+  match s.splitOn "/" with
+  | [b] => (Builtin.ofName? b).map (builtin obs)
+  | ["u", name, st, en] => do
+      if name == "" then none
+      let st ← parseNames? st
+      let en ← parseNames? en
+      some { name := name
+             onStart := st.map (fun ex => ⟨ex, fun k c => s!"us:{name}@{k}" ++ (if k == c then "" else "!")⟩)
+             onEnd := en.map (fun ex =>
+               ⟨ex, fun k c c' d => s!"ue:{name}@{c}>{c'}:" ++ showFloat d ++ (if k == c then "" else "!")⟩) }
+  | _ => none
+
+/-- `-` ↦ none (argument not given) ; `=a,b` ↦ some [a, b] -/
+def parseCbs? (s : String) : Option (Option (List CB)) :=
+  if s == "-" then some none
+  else if s.startsWith "=" then
+    let body := (s.drop 1).toString
+    if body == "" then some (some [])
+    else (body.splitOn ",").mapM parseItem? |>.map some
+  else none
+
+def parseOld? (s : String) : Option (List (String × String)) :=
+  if s == "-" then some []
+  else do
+    let groups ← (s.splitOn ",").mapM (fun g =>
+      match g.splitOn "*" with
+      | [k, n] => do
+          let n ← n.toNat?
+          if k == "" then none else some (k, n)
+      | _ => none)
+    some (groups.flatMap (fun (k, n) => (List.range n).map (fun i => (k, s!"old{i}"))))
+
+def parseBool? : String → Option Bool
+  | "0" => some false
+  | "1" => some true
+  | _ => none
+
+def b2s (b : Bool) : String := if b then "1" else "0"
+
+def posInf : Float := 1.0 / 0.0
+
+def keysOf (ev : List (String × String)) : List String :=
+  ev.foldl (fun acc e => if acc.contains e.1 then acc else acc ++ [e.1]) []
+
+def showLogs (ev : List (String × String)) : String :=
+  joinWith " " ((keysOf ev).map (fun k => k ++ "=" ++ joinWith "|" (logsOf k ev)))
+
 def handle : List String → Option String
+  | "fit" :: cls :: maxIter :: tol :: hasC :: cbs :: old :: diffs => do
+      let cls ← ModelClass.ofName? cls
+      let maxIter ← parseInt? maxIter
+      let tol ← parseFloat? tol
+      let hasC ← parseBool? hasC
+      let user ← parseCbs? cbs
+      let old ← parseOld? old
+      let ds ← parseFloats? diffs
+      let cbl := effectiveCallbacks (builtin obs) cls user
+      let diff : Nat → Nat → Float := fun k _ => (ds[k]?).getD posInf
+      match fit (· + 1) diff tol cbl hasC maxIter 0 old with
+      | .valueError => some "ValueError"
+      | .assertionError => some "AssertionError"
+      | .ok r =>
+          if r.iters > ds.length then some "short"
+          else some (s!"ok iters={r.iters} coef={r.coef} printed={b2s r.printed} stats={b2s r.stats} logs "
+                     ++ showLogs r.events)
+  | ["ctor", cls, arg] => do
+      let cls ← ModelClass.ofName? cls
+      let arg ← CtorArg.ofName? arg
+      some (b2s (accepts cls arg) ++ " " ++ b2s (forwards cls arg))
+  | ["defaults", cls] => do
+      let cls ← ModelClass.ofName? cls
+      some (joinWith " " ((defaultCallbacks cls).map Builtin.name))
+  | ["effective", cls, cbs] => do
+      let cls ← ModelClass.ofName? cls
+      let user ← parseCbs? cbs
+      some (joinWith " " ((effectiveCallbacks (builtin obs) cls user).map (·.name)))
+  | "bind" :: hook :: hasC :: names => do
+      let hasC ← parseBool? hasC
+      let avail ← match hook with
+        | "start" => some (startVars hasC)
+        | "end" => some (endVars hasC)
+        | _ => none
+      let m := missing avail names
+      some (if m.isEmpty then "ok" else "missing " ++ joinWith " " m)
   | _ => none
 end PyGam.Drv.C20
